@@ -8,7 +8,7 @@ INVS = ["AliveOK", "GoneOK"]
 
 def consts(adapter, ops, insts='{"i1","i2","i3"}', timeouts='{1,2,3}', ticks='{1,2}', maxnow=6, stop=2):
     return dict(Inst=insts, Timeouts=timeouts, Ticks=ticks, KVals='{0}', StepVals='{0}', Stop=str(stop), MaxNow=str(maxnow),
-                Scen='{"base"}', Ops=ops, Adapter="TRUE" if adapter else "FALSE", Compress='FALSE', Dev='{}')
+                Scen='{"base"}', Ops=ops, Adapter="TRUE" if adapter else "FALSE", Compress='FALSE', Kinds='{}', Creds='{}', Dev='{}')
 
 
 OPS_MEM = '{"Start","KeepAlive","Metrics","Tick","Results","Stop"}'
